@@ -251,7 +251,11 @@ def go_build(name, race=False, timeout=3000):
     # the build must not have touched go.mod / go.sum
     rc2, o2 = sh(["git", "-C", REPO, "diff", "--quiet", "--", "go.mod", "go.sum"])
     if rc2 != 0:
-        raise BuildError("go.mod/go.sum changed by the build")
+        # undo what the build wrote (a harness importing a module that go.mod lists as indirect makes
+        # `go build -mod=mod` rewrite the require line) and refuse the harness
+        sh(["git", "-C", REPO, "checkout", "--", "go.mod", "go.sum"])
+        raise BuildError("go.mod/go.sum changed by the build (restored); the harness imports a module "
+                         "that is not a direct requirement of /repo")
     return out
 
 
